@@ -249,7 +249,7 @@ func (obj SparseConstIntVector) ITERATOR() *SparseConstIntVectorIterator {
   return &r
 }
 func (obj SparseConstIntVector) ITERATOR_FROM(i int) *SparseConstIntVectorIterator {
-  k := 0
+  k := len(obj.indices)
   for j, idx := range obj.indices {
     if idx >= i {
       k = j
